@@ -32,7 +32,7 @@ type AV struct {
 var attrName = map[string]string{
 	"at": "@", "ch": "@char", "it": "@item", "by": "@byte", "va": "@value",
 	"x1": "a, b", "x2": "", "x3": "1a", "x4": "a'b", "x5": "a\"b", "x6": "@foo", "x7": "a.b", "x8": " a", "x9": "é",
-	"neg": "@neg", "fn": "@fn",
+	"neg": "@neg", "fn": "@fn", "x0": "0",
 }
 var attrID = func() map[string]string {
 	m := map[string]string{}
@@ -671,6 +671,9 @@ func (a *AV) RenderRel(perm int) string {
 	hs := make([]string, len(names))
 	for i, n := range names {
 		hs[i] = quoteAttr(specToName(n))
+		if hs[i] != specToName(n) {
+			return "" // the |..| heading only accepts identifiers
+		}
 	}
 	rows := make([]string, len(a.S))
 	for i, e := range a.S {
